@@ -74,6 +74,9 @@ class FunctionalGroupRaw(HierarchyElementRaw):
             if not isinstance(dv_proxy, OdxLinkRef):
                 result.update(dv_proxy._build_odxlinks())
 
+        for vg in self.variable_groups:
+            result[vg.odx_id] = vg
+
         for parent_ref in self.parent_refs:
             result.update(parent_ref._build_odxlinks())
 
